@@ -30,6 +30,39 @@
 //	         `continue` / `goto` that leaves it, and mentions the index slice only as `len(idx)`, `idx[e]` or
 //	         `modeling.NewTriangleMesh(idx)`
 //	return   at function level ends the translation
+//
+// FLOAT / VECTOR code (statements fassign vassign vpush vset of LoopIR, inserted where the Go statements are; the
+// integer statements above are unchanged by it):
+//
+//	fpars    the configured float receiver fields (`c.Radius`), then the `float64` parameters of the signature, in
+//	         order: float parameters 0,1,…; they can never be assigned
+//	FE       int literal / float literal with integral value -> `nat (lit n)`; other plain decimal literal -> `lit num
+//	         10^decimals`; `math.Pi` -> `pi`; `float64(<E>)` -> `nat E`; float local -> `fvar k`; float parameter ->
+//	         `fpar k`; + - * / as parsed; unary minus -> `neg`; `math.Sin(x)` / `math.Cos(x)`.  Not translated: a binary
+//	         operation on two CONSTANT operands that the Go compiler folds in exact arithmetic, unless it is a
+//	         multiplication by / division by an integral power-of-two literal with at least one non-integer constant
+//	         operand (`2.0 * math.Pi`, `math.Pi / 2`: exact either way); `1 / 2` (integer constant division) is refused
+//	VE       `vector3.New(a, b, c)` / `vector3.New[float64](…)` (without `[float64]`: not all three arguments integer
+//	         constants — that would instantiate int) -> `new`; `v.Scale(f)`, `v.Add(w)`, `v.Normalized()` on a VE
+//	         receiver; `vector3.Zero[float64]()`; vector local -> `vvar k`; `t[e]`, t a tracked []vector3.Float64
+//	         slice, e an integer expression -> `at t e`
+//	assign   `x := <FE>` -> `fassign k e`, k a NEW float-variable id (float locals are numbered separately, in source
+//	         order); `v := <VE>` -> `vassign k ve` (vector locals numbered separately); `x = <FE / VE>` to a float /
+//	         vector local declared in the SAME body -> same id (another body: loop-carried state, refused).  A vertex
+//	         copy `a := t[e]` (t a vector slice) yields its integer `assign` and then `vassign k (at t e)`
+//	opaque   an assignment whose right-hand side is neither E nor FE nor VE emits nothing and leaves the variable
+//	         opaque; an opaque variable makes every expression that mentions it untranslatable
+//	vpush    `s = append(s, v1, …)`, s a tracked []vector3.Float64 slice: `vpush s [VE…]` immediately before the
+//	         `push`; an untranslatable argument is REFUSED
+//	vset     `s[e] = v`, s a tracked []vector3.Float64 slice: `vset s E VE`; untranslatable index / value: REFUSED
+//	nrm      the single `.SetFloat3Data(m)` call (receiver `modeling.NewTriangleMesh(idx)`, possibly through other
+//	         SetFloatNData calls); m a map literal or a variable declared once at function level by a map literal and
+//	         mentioned nowhere else; its keys are `modeling.<Name>`; `modeling.NormalAttribute: N` with N a tracked
+//	         vector slice -> `nrm := some (N, false)`, N = `vector3.Array[float64](<tracked vector slice>).Normalized()`
+//	         -> `some (slice, true)`, no such key -> field omitted; the literal must come after the last translated
+//	         write to a tracked slice
+//	imports  `math` / `vector3` must be the unrenamed imports "math" / "github.com/EliCDavis/vector/vector3" and not
+//	         shadowed by a local name
 package main
 
 import (
@@ -59,16 +92,22 @@ type c18lCfg struct {
 	idx       string   // the []int slice handed to modeling.NewTriangleMesh
 	verts     string   // the slice set as modeling.PositionAttribute
 	intFields []string // integer receiver fields that count as parameters
+	fltFields []string // float64 receiver fields that count as float parameters
 	appends   bool     // also extract the Append structure (cylinder)
 }
 
 var c18lCfgs = []c18lCfg{
 	{lean: "uvSphere", file: "sphere.go", fn: "UVSphere", idx: "tris", verts: "positions"},
-	{lean: "hemisphere", file: "hemisphere.go", recv: "Hemisphere", fn: "UV", idx: "tris", verts: "positions"},
+	{lean: "hemisphere", file: "hemisphere.go", recv: "Hemisphere", fn: "UV", idx: "tris", verts: "positions", fltFields: []string{"Radius"}},
 	{lean: "uvSphereUnwelded", file: "sphere.go", fn: "UVSphereUnwelded", idx: "tris", verts: "finalVerts"},
-	{lean: "circle", file: "circle.go", recv: "Circle", fn: "ToMesh", idx: "tris", verts: "vertices", intFields: []string{"Sides"}},
-	{lean: "cylinder", file: "cylinder.go", recv: "Cylinder", fn: "ToMesh", idx: "tris", verts: "vertices", intFields: []string{"Sides"}, appends: true},
+	{lean: "circle", file: "circle.go", recv: "Circle", fn: "ToMesh", idx: "tris", verts: "vertices", intFields: []string{"Sides"}, fltFields: []string{"Radius"}},
+	{lean: "cylinder", file: "cylinder.go", recv: "Cylinder", fn: "ToMesh", idx: "tris", verts: "vertices", intFields: []string{"Sides"}, fltFields: []string{"Radius", "Height"}, appends: true},
 }
+
+const (
+	c18lMathPath = "math"
+	c18lVec3Path = "github.com/EliCDavis/vector/vector3"
+)
 
 // ---- the loop language ------------------------------------------------------------------------------------
 
@@ -95,18 +134,100 @@ func (e *c18lE) any(p func(*c18lE) bool) bool {
 	return p(e) || e.a.any(p) || e.b.any(p)
 }
 
+// float expressions; every constructor is written with the prefix `FE.` (add sub mul div lit also exist in E)
+type c18lFE struct {
+	op   string // nat lit pi fpar fvar add sub mul div neg sin cos
+	n, d int    // lit: num den; fpar / fvar: id
+	e    *c18lE // nat
+	a, b *c18lFE
+}
+
+func (f *c18lFE) bare() string {
+	switch f.op {
+	case "nat":
+		return "FE.nat " + f.e.arg()
+	case "lit":
+		return fmt.Sprintf("FE.lit %d %d", f.n, f.d)
+	case "pi":
+		return "FE.pi"
+	case "fpar", "fvar":
+		return fmt.Sprintf("FE.%s %d", f.op, f.n)
+	case "neg", "sin", "cos":
+		return fmt.Sprintf("FE.%s %s", f.op, f.a.arg())
+	}
+	return fmt.Sprintf("FE.%s %s %s", f.op, f.a.arg(), f.b.arg())
+}
+
+func (f *c18lFE) arg() string {
+	if f.op == "pi" {
+		return f.bare()
+	}
+	return "(" + f.bare() + ")"
+}
+
+// vector expressions; every constructor is written with the prefix `VE.`
+type c18lVE struct {
+	op      string  // new vvar scale add normalized zero at
+	k       int     // vvar: id; at: slice id
+	x, y, z *c18lFE // new; scale: x is the factor
+	v, w    *c18lVE
+	e       *c18lE // at: index
+}
+
+func (v *c18lVE) bare() string {
+	switch v.op {
+	case "new":
+		return fmt.Sprintf("VE.new %s %s %s", v.x.arg(), v.y.arg(), v.z.arg())
+	case "vvar":
+		return fmt.Sprintf("VE.vvar %d", v.k)
+	case "scale":
+		return fmt.Sprintf("VE.scale %s %s", v.v.arg(), v.x.arg())
+	case "add":
+		return fmt.Sprintf("VE.add %s %s", v.v.arg(), v.w.arg())
+	case "normalized":
+		return "VE.normalized " + v.v.arg()
+	case "zero":
+		return "VE.zero"
+	case "at":
+		return fmt.Sprintf("VE.at %d %s", v.k, v.e.arg())
+	}
+	panic("c18.loops: unknown vector expression " + v.op)
+}
+
+func (v *c18lVE) arg() string {
+	if v.op == "zero" {
+		return v.bare()
+	}
+	return "(" + v.bare() + ")"
+}
+
 type c18lS struct {
-	kind   string // assign push alloc loop
-	k      int    // variable id (assign, loop) / slice id (push, alloc)
-	e      *c18lE
+	kind   string // assign push alloc loop / fassign vassign vpush vset
+	k      int    // variable id (assign, loop, fassign, vassign) / slice id (push, alloc, vpush, vset)
+	e      *c18lE // assign, alloc; vset: the index
 	es     []*c18lE
 	lo, hi *c18lE
 	incl   bool
 	body   []*c18lS
+	fe     *c18lFE   // fassign
+	ve     *c18lVE   // vassign, vset
+	ves    []*c18lVE // vpush
 }
 
 func c18lAtom(s *c18lS, ind int) string {
 	switch s.kind {
+	case "fassign":
+		return fmt.Sprintf("(fassign %d (%s))", s.k, s.fe.bare())
+	case "vassign":
+		return fmt.Sprintf("(vassign %d (%s))", s.k, s.ve.bare())
+	case "vpush":
+		p := make([]string, len(s.ves))
+		for i, v := range s.ves {
+			p[i] = v.bare()
+		}
+		return fmt.Sprintf("(vpush %d [%s])", s.k, strings.Join(p, ", "))
+	case "vset":
+		return fmt.Sprintf("(vset %d %s (%s))", s.k, s.e.arg(), s.ve.bare())
 	case "assign":
 		return fmt.Sprintf("(assign %d %s)", s.k, s.e.arg())
 	case "alloc":
@@ -161,14 +282,26 @@ func c18lAssigned(list []*c18lS, into map[int]bool) {
 // ---- translation ------------------------------------------------------------------------------------------
 
 type c18lBind struct {
-	kind   string // "int" (tracked integer variable), "vref" (vertex copy), "slice", "recv", "other" (untracked, shadows)
+	kind string // "int" (tracked integer variable), "vref" (vertex copy), "slice", "recv", "other" (untracked / opaque, shadows),
+	// "float" (float local), "vec" (vector local), "fpar" (float parameter)
 	id     int
-	body   int  // int / vref: id of the loop body it was declared in (0 = function level); -1 = never assignable
+	body   int  // int / vref / float / vec: id of the loop body it was declared in (0 = function level); -1 = never assignable
 	eltInt bool // slice: element type is `int`
+	eltVec bool // slice: element type is `vector3.Float64`
+	vid    int  // vref: id of the vector local holding the copied vertex (-1: the source is not a vector slice)
+	opaque bool // float / vec: the last value assigned was untranslatable
+	line   int  // line of the declaration (other / float / vec), for messages
 }
 
 func (b *c18lBind) tracked() bool {
-	return b != nil && (b.kind == "int" || b.kind == "vref" || b.kind == "slice" || b.kind == "recv")
+	if b == nil {
+		return false
+	}
+	switch b.kind {
+	case "int", "vref", "slice", "recv", "float", "vec", "fpar":
+		return true
+	}
+	return false
 }
 
 type c18lCtx struct {
@@ -179,13 +312,38 @@ type c18lCtx struct {
 	nextVar    int
 	nextSlice  int
 	nextBody   int
+	nextFVar   int
+	nextVVar   int
+	nextFPar   int
 	params     []string // "name=id"
 	slices     []string
 	vars       []string
+	fpars      []string
+	fvars      []string
+	vvars      []string
 	guards     [][2]*c18lE
 	skipped    []string // report of skipped / ignored statements (printed to stderr when C18L_VERBOSE is set)
 	idxBind    *c18lBind
 	sliceByNam map[string]*c18lBind
+	imports    map[string]string // local package name -> import path
+	lastWrite  token.Pos         // position of the last translated write to a tracked slice
+}
+
+// why an expression is not an FE / VE
+type c18lWhy struct {
+	n   ast.Node
+	msg string
+}
+
+func c18lNo(n ast.Node, format string, a ...any) *c18lWhy {
+	return &c18lWhy{n: n, msg: fmt.Sprintf(format, a...)}
+}
+
+func (c *c18lCtx) line(n ast.Node) int { return c.fset.Position(n.Pos()).Line }
+
+// `name` is the package imported (unrenamed) from `path`, not shadowed by a local declaration
+func (c *c18lCtx) pkgIs(name, path string) bool {
+	return c.lookup(name) == nil && c.imports[name] == path
 }
 
 func (c *c18lCtx) src(n ast.Node) string {
@@ -325,6 +483,341 @@ func (c *c18lCtx) intExpr(e ast.Expr) (*c18lE, bool) {
 		return &c18lE{op: op, a: a, b: b}, true
 	}
 	return nil, false
+}
+
+// a plain decimal literal `ddd`, `ddd.`, `.ddd`, `ddd.ddd` (no exponent, no base prefix, no `_`):
+// integral value -> (n, 1), else (digits, 10^decimals)
+func c18lDecimal(s string) (num, den int, ok bool) {
+	ip, fp, _ := strings.Cut(s, ".")
+	if ip == "" && fp == "" {
+		return 0, 0, false
+	}
+	for _, r := range ip + fp {
+		if r < '0' || r > '9' {
+			return 0, 0, false
+		}
+	}
+	if len(ip) > 1 && ip[0] == '0' && !strings.Contains(s, ".") { // legacy octal `017`
+		return 0, 0, false
+	}
+	if len(ip)+len(fp) > 15 {
+		return 0, 0, false
+	}
+	if strings.Trim(fp, "0") == "" {
+		fp = ""
+	}
+	n, err := strconv.ParseInt("0"+ip+fp, 10, 64)
+	if err != nil {
+		return 0, 0, false
+	}
+	den = 1
+	for range fp {
+		den *= 10
+	}
+	return int(n), den, true
+}
+
+// constant operands (folded by the compiler in exact arithmetic): 0 = not a constant, 1 = integer constant
+// (literals and operators only), 2 = other constant (a float literal, math.Pi, float64(<integer constant>) inside)
+func (c *c18lCtx) constKind(e ast.Expr) int {
+	switch v := e.(type) {
+	case *ast.ParenExpr:
+		return c.constKind(v.X)
+	case *ast.BasicLit:
+		switch v.Kind {
+		case token.INT:
+			return 1
+		case token.FLOAT:
+			return 2
+		}
+	case *ast.SelectorExpr:
+		if x, ok := v.X.(*ast.Ident); ok && x.Name == "math" && v.Sel.Name == "Pi" && c.pkgIs("math", c18lMathPath) {
+			return 2
+		}
+	case *ast.UnaryExpr:
+		if v.Op == token.SUB || v.Op == token.ADD {
+			return c.constKind(v.X)
+		}
+	case *ast.BinaryExpr:
+		a, b := c.constKind(v.X), c.constKind(v.Y)
+		if a == 0 || b == 0 {
+			return 0
+		}
+		return max(a, b)
+	case *ast.CallExpr:
+		if f, ok := v.Fun.(*ast.Ident); ok && f.Name == "float64" && len(v.Args) == 1 && c.constKind(v.Args[0]) != 0 {
+			return 2
+		}
+	}
+	return 0
+}
+
+// ±(literal with an integral power-of-two value)
+func c18lPow2Lit(e ast.Expr) bool {
+	e = c18lUnparen(e)
+	if u, ok := e.(*ast.UnaryExpr); ok && u.Op == token.SUB {
+		e = c18lUnparen(u.X)
+	}
+	bl, ok := e.(*ast.BasicLit)
+	if !ok || (bl.Kind != token.INT && bl.Kind != token.FLOAT) {
+		return false
+	}
+	n, den, ok := c18lDecimal(bl.Value)
+	return ok && den == 1 && n > 0 && n&(n-1) == 0
+}
+
+func (c *c18lCtx) noIdent(id *ast.Ident, what string) *c18lWhy {
+	b := c.lookup(id.Name)
+	switch {
+	case b == nil:
+		return c18lNo(id, "`%s` is not a %s (not declared by a translated statement)", id.Name, what)
+	case (b.kind == "float" || b.kind == "vec") && b.opaque:
+		return c18lNo(id, "use of the OPAQUE variable `%s` (its last assigned value was untranslatable; declared at line %d)", id.Name, b.line)
+	case b.kind == "other" && b.line > 0:
+		return c18lNo(id, "use of the OPAQUE variable `%s` (declared at line %d with an untranslatable value)", id.Name, b.line)
+	}
+	return c18lNo(id, "`%s` is not a %s (it is: %s)", id.Name, what, b.kind)
+}
+
+// float expressions (see the header)
+func (c *c18lCtx) floatExpr(e ast.Expr) (*c18lFE, *c18lWhy) {
+	switch v := e.(type) {
+	case *ast.ParenExpr:
+		return c.floatExpr(v.X)
+	case *ast.BasicLit:
+		if v.Kind != token.INT && v.Kind != token.FLOAT {
+			return nil, c18lNo(v, "literal that is not a number")
+		}
+		n, den, ok := c18lDecimal(v.Value)
+		if !ok {
+			return nil, c18lNo(v, "numeric literal that is not a plain decimal of at most 15 digits")
+		}
+		if den == 1 {
+			return &c18lFE{op: "nat", e: &c18lE{op: "lit", n: n}}, nil
+		}
+		return &c18lFE{op: "lit", n: n, d: den}, nil
+	case *ast.Ident:
+		if b := c.lookup(v.Name); b != nil {
+			switch {
+			case b.kind == "float" && !b.opaque:
+				return &c18lFE{op: "fvar", n: b.id}, nil
+			case b.kind == "fpar":
+				return &c18lFE{op: "fpar", n: b.id}, nil
+			}
+		}
+		return nil, c.noIdent(v, "float variable")
+	case *ast.SelectorExpr:
+		x, ok := v.X.(*ast.Ident)
+		if !ok {
+			return nil, c18lNo(v, "selector that is neither math.Pi nor a float receiver field")
+		}
+		if x.Name == "math" && c.pkgIs("math", c18lMathPath) {
+			if v.Sel.Name == "Pi" {
+				return &c18lFE{op: "pi"}, nil
+			}
+			return nil, c18lNo(v, "math.%s is not modelled", v.Sel.Name)
+		}
+		if c.recvName != "" && x.Name == c.recvName {
+			if b := c.lookup(x.Name); b != nil && b.kind == "recv" {
+				for i, f := range c.cfg.fltFields {
+					if f == v.Sel.Name {
+						return &c18lFE{op: "fpar", n: i}, nil
+					}
+				}
+			}
+		}
+		return nil, c18lNo(v, "selector that is neither math.Pi nor a float receiver field")
+	case *ast.CallExpr:
+		if v.Ellipsis != token.NoPos {
+			return nil, c18lNo(v, "call with `...`")
+		}
+		if f, ok := v.Fun.(*ast.Ident); ok {
+			if f.Name != "float64" || c.lookup("float64") != nil || len(v.Args) != 1 {
+				return nil, c18lNo(v, "call of `%s` in a float expression", f.Name)
+			}
+			ie, ok := c.intExpr(v.Args[0])
+			if !ok {
+				return nil, c18lNo(v, "float64(…) of something that is not an integer expression")
+			}
+			return &c18lFE{op: "nat", e: ie}, nil
+		}
+		if sel, ok := v.Fun.(*ast.SelectorExpr); ok {
+			if x, ok := sel.X.(*ast.Ident); ok && x.Name == "math" && c.pkgIs("math", c18lMathPath) {
+				op := map[string]string{"Sin": "sin", "Cos": "cos"}[sel.Sel.Name]
+				if op == "" || len(v.Args) != 1 {
+					return nil, c18lNo(v, "math.%s(…) is not modelled (only math.Sin / math.Cos)", sel.Sel.Name)
+				}
+				a, why := c.floatExpr(v.Args[0])
+				if why != nil {
+					return nil, why
+				}
+				return &c18lFE{op: op, a: a}, nil
+			}
+		}
+		return nil, c18lNo(v, "call that is not float64(…) / math.Sin(…) / math.Cos(…)")
+	case *ast.UnaryExpr:
+		if v.Op != token.SUB {
+			return nil, c18lNo(v, "unary `%s` in a float expression", v.Op)
+		}
+		a, why := c.floatExpr(v.X)
+		if why != nil {
+			return nil, why
+		}
+		return &c18lFE{op: "neg", a: a}, nil
+	case *ast.BinaryExpr:
+		op := map[token.Token]string{token.ADD: "add", token.SUB: "sub", token.MUL: "mul", token.QUO: "div"}[v.Op]
+		if op == "" {
+			return nil, c18lNo(v, "binary `%s` in a float expression", v.Op)
+		}
+		if ka, kb := c.constKind(v.X), c.constKind(v.Y); ka != 0 && kb != 0 {
+			switch {
+			case ka == 1 && kb == 1:
+				return nil, c18lNo(v, "integer constant arithmetic in a float expression (Go evaluates it in the integers)")
+			case op == "mul" && (c18lPow2Lit(v.X) || c18lPow2Lit(v.Y)), op == "div" && c18lPow2Lit(v.Y):
+				// exact either way
+			default:
+				return nil, c18lNo(v, "constant expression that the Go compiler folds in exact arithmetic (not a float64 operation)")
+			}
+		}
+		a, why := c.floatExpr(v.X)
+		if why != nil {
+			return nil, why
+		}
+		b, why := c.floatExpr(v.Y)
+		if why != nil {
+			return nil, why
+		}
+		return &c18lFE{op: op, a: a, b: b}, nil
+	}
+	return nil, c18lNo(e, "not a float expression")
+}
+
+// the element type of a tracked vector slice: `vector3.Float64` / `vector3.Vector[float64]`
+func (c *c18lCtx) isVec3Type(t ast.Expr) bool {
+	if !c.pkgIs("vector3", c18lVec3Path) || c.lookup("float64") != nil {
+		return false
+	}
+	switch v := t.(type) {
+	case *ast.SelectorExpr:
+		x, ok := v.X.(*ast.Ident)
+		return ok && x.Name == "vector3" && v.Sel.Name == "Float64"
+	case *ast.IndexExpr:
+		return c18Sel(v.X) == "vector3.Vector" && c18Sel(v.Index) == "float64"
+	}
+	return false
+}
+
+// vector expressions (see the header)
+func (c *c18lCtx) vecExpr(e ast.Expr) (*c18lVE, *c18lWhy) {
+	switch v := e.(type) {
+	case *ast.ParenExpr:
+		return c.vecExpr(v.X)
+	case *ast.Ident:
+		if b := c.lookup(v.Name); b != nil {
+			switch {
+			case b.kind == "vec" && !b.opaque:
+				return &c18lVE{op: "vvar", k: b.id}, nil
+			case b.kind == "vref" && b.vid >= 0:
+				return &c18lVE{op: "vvar", k: b.vid}, nil
+			}
+		}
+		return nil, c.noIdent(v, "vector variable")
+	case *ast.IndexExpr:
+		id, ok := c18lUnparen(v.X).(*ast.Ident)
+		if !ok {
+			return nil, c18lNo(v, "index expression that is not `t[e]` with t a tracked vector slice")
+		}
+		b := c.lookup(id.Name)
+		if b == nil || b.kind != "slice" || !b.eltVec {
+			return nil, c18lNo(v, "`%s` is not a tracked []vector3.Float64 slice", id.Name)
+		}
+		ie, ok := c.intExpr(v.Index)
+		if !ok {
+			return nil, c18lNo(v, "element of `%s` whose index is not an integer expression", id.Name)
+		}
+		return &c18lVE{op: "at", k: b.id, e: ie}, nil
+	case *ast.CallExpr:
+		if v.Ellipsis != token.NoPos {
+			return nil, c18lNo(v, "call with `...`")
+		}
+		fun := v.Fun
+		explicit := false
+		if ix, ok := fun.(*ast.IndexExpr); ok {
+			if c18Sel(ix.Index) != "float64" || c.lookup("float64") != nil {
+				return nil, c18lNo(v, "generic instantiation other than [float64]")
+			}
+			if _, isId := ix.Index.(*ast.Ident); !isId {
+				return nil, c18lNo(v, "generic instantiation other than [float64]")
+			}
+			explicit = true
+			fun = ix.X
+		}
+		sel, ok := fun.(*ast.SelectorExpr)
+		if !ok {
+			return nil, c18lNo(v, "call that is not vector3.New / vector3.Zero[float64] / .Scale / .Add / .Normalized")
+		}
+		if x, ok := sel.X.(*ast.Ident); ok && x.Name == "vector3" && c.pkgIs("vector3", c18lVec3Path) {
+			switch sel.Sel.Name {
+			case "New":
+				if len(v.Args) != 3 {
+					return nil, c18lNo(v, "vector3.New without three arguments")
+				}
+				if !explicit && c.constKind(v.Args[0]) == 1 && c.constKind(v.Args[1]) == 1 && c.constKind(v.Args[2]) == 1 {
+					return nil, c18lNo(v, "vector3.New of three integer constants (instantiates int, not float64)")
+				}
+				var fs [3]*c18lFE
+				for i, a := range v.Args {
+					f, why := c.floatExpr(a)
+					if why != nil {
+						return nil, why
+					}
+					fs[i] = f
+				}
+				return &c18lVE{op: "new", x: fs[0], y: fs[1], z: fs[2]}, nil
+			case "Zero":
+				if !explicit || len(v.Args) != 0 {
+					return nil, c18lNo(v, "vector3.Zero that is not `vector3.Zero[float64]()`")
+				}
+				return &c18lVE{op: "zero"}, nil
+			}
+			return nil, c18lNo(v, "vector3.%s is not modelled", sel.Sel.Name)
+		}
+		if explicit {
+			return nil, c18lNo(v, "instantiated call that is not vector3.New / vector3.Zero")
+		}
+		switch sel.Sel.Name {
+		case "Scale", "Add":
+			if len(v.Args) != 1 {
+				return nil, c18lNo(v, ".%s without exactly one argument", sel.Sel.Name)
+			}
+		case "Normalized":
+			if len(v.Args) != 0 {
+				return nil, c18lNo(v, ".Normalized with arguments")
+			}
+		default:
+			return nil, c18lNo(v, "method .%s is not modelled (only .Scale / .Add / .Normalized)", sel.Sel.Name)
+		}
+		recv, why := c.vecExpr(sel.X)
+		if why != nil {
+			return nil, why
+		}
+		switch sel.Sel.Name {
+		case "Scale":
+			f, why := c.floatExpr(v.Args[0])
+			if why != nil {
+				return nil, why
+			}
+			return &c18lVE{op: "scale", v: recv, x: f}, nil
+		case "Add":
+			w, why := c.vecExpr(v.Args[0])
+			if why != nil {
+				return nil, why
+			}
+			return &c18lVE{op: "add", v: recv, w: w}, nil
+		}
+		return &c18lVE{op: "normalized", v: recv}, nil
+	}
+	return nil, c18lNo(e, "not a vector expression")
 }
 
 // `make([]T, n[, cap])`: the element type and the length argument
@@ -477,7 +970,7 @@ func (c *c18lCtx) skip(st ast.Stmt, why string) error {
 		if v.Tok == token.DEFINE {
 			for _, l := range v.Lhs {
 				if id, ok := l.(*ast.Ident); ok {
-					c.declare(id.Name, &c18lBind{kind: "other"})
+					c.declare(id.Name, &c18lBind{kind: "other", line: c.line(st)})
 				}
 			}
 		}
@@ -487,7 +980,7 @@ func (c *c18lCtx) skip(st ast.Stmt, why string) error {
 				switch s := sp.(type) {
 				case *ast.ValueSpec:
 					for _, id := range s.Names {
-						c.declare(id.Name, &c18lBind{kind: "other"})
+						c.declare(id.Name, &c18lBind{kind: "other", line: c.line(st)})
 					}
 				case *ast.TypeSpec:
 					c.declare(s.Name.Name, &c18lBind{kind: "other"})
@@ -569,6 +1062,18 @@ func (c *c18lCtx) assign(st *ast.AssignStmt, body int, funcLevel bool) ([]*c18lS
 				if b == c.idxBind || b.eltInt {
 					return nil, c.errf(st, "index assignment to the []int slice `%s`", id.Name)
 				}
+				if b.eltVec { // vset
+					ie, ok := c.intExpr(ix.Index)
+					if !ok {
+						return nil, c.errf(st, "index assignment to the vector slice `%s` whose index is not an integer expression", id.Name)
+					}
+					ve, why := c.vecExpr(rhs)
+					if why != nil {
+						return nil, c.errf(why.n, "untranslatable value assigned to an element of the vector slice `%s` (line %d): %s", id.Name, c.line(st), why.msg)
+					}
+					c.lastWrite = st.Pos()
+					return []*c18lS{{kind: "vset", k: b.id, e: ie, ve: ve}}, nil
+				}
 				if err := c.checkSkipped(ix.Index); err != nil {
 					return nil, err
 				}
@@ -598,8 +1103,9 @@ func (c *c18lCtx) assign(st *ast.AssignStmt, body int, funcLevel bool) ([]*c18lS
 		if !ok {
 			return nil, c.errf(st, "make with a length that is not an integer expression")
 		}
-		b := &c18lBind{kind: "slice", id: c.nextSlice, eltInt: c18Sel(elt) == "int"}
+		b := &c18lBind{kind: "slice", id: c.nextSlice, eltInt: c18Sel(elt) == "int", eltVec: c.isVec3Type(elt)}
 		c.nextSlice++
+		c.lastWrite = st.Pos()
 		c.slices = append(c.slices, fmt.Sprintf("%s=%d", id.Name, b.id))
 		c.declare(id.Name, b)
 		c.sliceByNam[id.Name] = b
@@ -634,8 +1140,53 @@ func (c *c18lCtx) assign(st *ast.AssignStmt, body int, funcLevel bool) ([]*c18lS
 				}
 				es = append(es, e)
 			}
+			c.lastWrite = st.Pos()
+			if lb.eltVec { // vpush, immediately before the push
+				ves := []*c18lVE{}
+				for _, a := range call.Args[1:] {
+					ve, why := c.vecExpr(a)
+					if why != nil {
+						return nil, c.errf(why.n, "untranslatable value appended to the vector slice `%s` (line %d): %s", id.Name, c.line(st), why.msg)
+					}
+					ves = append(ves, ve)
+				}
+				return []*c18lS{{kind: "vpush", k: lb.id, ves: ves}, {kind: "push", k: lb.id, es: es}}, nil
+			}
 			return []*c18lS{{kind: "push", k: lb.id, es: es}}, nil
 		}
+	}
+
+	// `x = <value>` to a float parameter / float local / vector local
+	if lb != nil && (lb.kind == "fpar" || lb.kind == "float" || lb.kind == "vec") {
+		if lb.kind == "fpar" {
+			return nil, c.errf(st, "assignment to the float parameter `%s`", id.Name)
+		}
+		if lb.body != body {
+			return nil, c.errf(st, "assignment to `%s`, which was declared outside the current loop body (loop-carried state)", id.Name)
+		}
+		var why *c18lWhy
+		var out *c18lS
+		if lb.kind == "float" {
+			var fe *c18lFE
+			if fe, why = c.floatExpr(rhs); why == nil {
+				out = &c18lS{kind: "fassign", k: lb.id, fe: fe}
+			}
+		} else {
+			var ve *c18lVE
+			if ve, why = c.vecExpr(rhs); why == nil {
+				out = &c18lS{kind: "vassign", k: lb.id, ve: ve}
+			}
+		}
+		if why != nil {
+			if err := c.checkSkipped(rhs); err != nil {
+				return nil, err
+			}
+			lb.opaque = true
+			c.note(st, "OPAQUE from here ("+why.msg+")")
+			return nil, nil
+		}
+		lb.opaque = false
+		return []*c18lS{out}, nil
 	}
 
 	// rule 5: integer assignments
@@ -667,11 +1218,38 @@ func (c *c18lCtx) assign(st *ast.AssignStmt, body int, funcLevel bool) ([]*c18lS
 				if b := c.lookup(sid.Name); b != nil && b.kind == "slice" && !b.eltInt {
 					if e, ok := c.intExpr(ix.Index); ok {
 						nb := c.declareInt(id.Name, "vref", body)
-						return []*c18lS{{kind: "assign", k: nb.id, e: e}}, nil
+						nb.vid = -1
+						out := []*c18lS{{kind: "assign", k: nb.id, e: e}}
+						if b.eltVec { // the copied vertex itself: a new vector local
+							nb.vid = c.nextVVar
+							c.nextVVar++
+							c.vvars = append(c.vvars, fmt.Sprintf("%s=%d", id.Name, nb.vid))
+							out = append(out, &c18lS{kind: "vassign", k: nb.vid, ve: &c18lVE{op: "at", k: b.id, e: e}})
+						}
+						return out, nil
 					}
 				}
 			}
 		}
+	}
+	if st.Tok == token.DEFINE && id.Name != "_" {
+		fe, whyF := c.floatExpr(rhs)
+		if whyF == nil {
+			b := &c18lBind{kind: "float", id: c.nextFVar, body: body, line: c.line(st)}
+			c.nextFVar++
+			c.fvars = append(c.fvars, fmt.Sprintf("%s=%d", id.Name, b.id))
+			c.declare(id.Name, b)
+			return []*c18lS{{kind: "fassign", k: b.id, fe: fe}}, nil
+		}
+		ve, whyV := c.vecExpr(rhs)
+		if whyV == nil {
+			b := &c18lBind{kind: "vec", id: c.nextVVar, body: body, line: c.line(st)}
+			c.nextVVar++
+			c.vvars = append(c.vvars, fmt.Sprintf("%s=%d", id.Name, b.id))
+			c.declare(id.Name, b)
+			return []*c18lS{{kind: "vassign", k: b.id, ve: ve}}, nil
+		}
+		return nil, c.skip(st, "skipped, variable OPAQUE (not an integer expression; as float: "+whyF.msg+"; as vector: "+whyV.msg+")")
 	}
 	return nil, c.skip(st, "skipped (non-integer value, untracked variable)")
 }
@@ -808,6 +1386,13 @@ func (c *c18lCtx) stmts(list []ast.Stmt, body int, funcLevel bool) ([]*c18lS, er
 	return out, nil
 }
 
+func c18lNames(l []string) string {
+	if len(l) == 0 {
+		return "(none)"
+	}
+	return strings.Join(l, " ")
+}
+
 // ---- one constructor ----------------------------------------------------------------------------------------
 
 type c18lResult struct {
@@ -843,7 +1428,18 @@ func c18lExtract(fset *token.FileSet, f *ast.File, cfg c18lCfg) (*c18lResult, er
 	if fd == nil || fd.Body == nil {
 		return nil, fmt.Errorf("%s: func %s not found", cfg.file, goName)
 	}
-	c := &c18lCtx{fset: fset, cfg: cfg, sliceByNam: map[string]*c18lBind{}}
+	c := &c18lCtx{fset: fset, cfg: cfg, sliceByNam: map[string]*c18lBind{}, imports: map[string]string{}}
+	for _, im := range f.Imports {
+		path, err := strconv.Unquote(im.Path.Value)
+		if err != nil {
+			continue
+		}
+		name := path[strings.LastIndex(path, "/")+1:]
+		if im.Name != nil {
+			name = im.Name.Name
+		}
+		c.imports[name] = path
+	}
 	c.push()
 	// rule 1: parameters
 	if fd.Recv != nil {
@@ -852,7 +1448,7 @@ func c18lExtract(fset *token.FileSet, f *ast.File, cfg c18lCfg) (*c18lResult, er
 			c.declare(c.recvName, &c18lBind{kind: "recv"})
 		}
 		if c.recvName == "" || c.recvName == "_" {
-			if len(cfg.intFields) > 0 {
+			if len(cfg.intFields) > 0 || len(cfg.fltFields) > 0 {
 				return nil, c.errf(fd, "method without a named receiver")
 			}
 		}
@@ -860,9 +1456,20 @@ func c18lExtract(fset *token.FileSet, f *ast.File, cfg c18lCfg) (*c18lResult, er
 			c.params = append(c.params, fmt.Sprintf("%s.%s=%d", c.recvName, fld, c.nextVar))
 			c.nextVar++
 		}
+		for _, fld := range cfg.fltFields {
+			c.fpars = append(c.fpars, fmt.Sprintf("%s.%s=%d", c.recvName, fld, c.nextFPar))
+			c.nextFPar++
+		}
 	}
 	for _, p := range fd.Type.Params.List {
 		for _, nm := range p.Names {
+			if _, isId := p.Type.(*ast.Ident); isId && c18Sel(p.Type) == "float64" && nm.Name != "_" {
+				b := &c18lBind{kind: "fpar", id: c.nextFPar, body: -1}
+				c.nextFPar++
+				c.fpars = append(c.fpars, fmt.Sprintf("%s=%d", nm.Name, b.id))
+				c.declare(nm.Name, b)
+				continue
+			}
 			if c18Sel(p.Type) == "int" {
 				if _, isId := p.Type.(*ast.Ident); isId && nm.Name != "_" {
 					b := &c18lBind{kind: "int", id: c.nextVar, body: -1}
@@ -919,9 +1526,15 @@ func c18lExtract(fset *token.FileSet, f *ast.File, cfg c18lCfg) (*c18lResult, er
 		return nil, c.errf(fd, "expected exactly one `modeling.PositionAttribute: …` entry, with value `%s`", cfg.verts)
 	}
 
+	nrm, err := c.normals(fd)
+	if err != nil {
+		return nil, err
+	}
+
 	var b strings.Builder
-	fmt.Fprintf(&b, "/-- %s `%s`: params %s; slices %s;\n    vars %s -/\n", cfg.file, goName,
-		strings.Join(c.params, " "), strings.Join(c.slices, " "), strings.Join(c.vars, " "))
+	fmt.Fprintf(&b, "/-- %s `%s`: params %s; slices %s;\n    vars %s;\n    fpars %s; fvars %s; vvars %s -/\n", cfg.file, goName,
+		strings.Join(c.params, " "), strings.Join(c.slices, " "), strings.Join(c.vars, " "),
+		c18lNames(c.fpars), c18lNames(c.fvars), c18lNames(c.vvars))
 	fmt.Fprintf(&b, "def %s : Prog := {\n", cfg.lean)
 	fmt.Fprintf(&b, "  params := %d\n", nparams)
 	gs := make([]string, len(c.guards))
@@ -931,6 +1544,9 @@ func c18lExtract(fset *token.FileSet, f *ast.File, cfg c18lCfg) (*c18lResult, er
 	fmt.Fprintf(&b, "  guards := [%s]\n", strings.Join(gs, ", "))
 	fmt.Fprintf(&b, "  idx := %d\n", ib.id)
 	fmt.Fprintf(&b, "  verts := %d\n", vb.id)
+	if nrm != "" {
+		fmt.Fprintf(&b, "  nrm := %s\n", nrm)
+	}
 	fmt.Fprintf(&b, "  body :=\n%s }\n", c18lTop(body))
 
 	if cfg.appends {
@@ -941,6 +1557,151 @@ func c18lExtract(fset *token.FileSet, f *ast.File, cfg c18lCfg) (*c18lResult, er
 		b.WriteString("\n" + s)
 	}
 	return &c18lResult{text: b.String(), skipped: c.skipped}, nil
+}
+
+// the `nrm` field: "" (no normals supplied) or `some (slice, normalized)`; see the header.  Runs after the translation
+// (only the outermost scope is left): slices are resolved through sliceByNam (function-level declarations).
+func (c *c18lCtx) normals(fd *ast.FuncDecl) (string, error) {
+	var calls []*ast.CallExpr
+	ast.Inspect(fd.Body, func(nd ast.Node) bool {
+		if call, ok := nd.(*ast.CallExpr); ok {
+			if sel, ok := call.Fun.(*ast.SelectorExpr); ok && sel.Sel.Name == "SetFloat3Data" {
+				calls = append(calls, call)
+			}
+		}
+		return true
+	})
+	if len(calls) != 1 {
+		return "", c.errf(fd, "expected exactly one .SetFloat3Data(…) call (found %d)", len(calls))
+	}
+	call := calls[0]
+	if len(call.Args) != 1 || call.Ellipsis != token.NoPos {
+		return "", c.errf(call, ".SetFloat3Data without exactly one argument")
+	}
+	// the receiver: modeling.NewTriangleMesh(idx), possibly through other SetFloatNData calls
+	for r := call.Fun.(*ast.SelectorExpr).X; ; {
+		rc, ok := r.(*ast.CallExpr)
+		if !ok {
+			return "", c.errf(call, "the receiver of .SetFloat3Data is not modeling.NewTriangleMesh(%s) (possibly through SetFloatNData calls)", c.cfg.idx)
+		}
+		if c18Sel(rc.Fun) == "modeling.NewTriangleMesh" {
+			break
+		}
+		sel, ok := rc.Fun.(*ast.SelectorExpr)
+		if !ok || !(sel.Sel.Name == "SetFloat1Data" || sel.Sel.Name == "SetFloat2Data" || sel.Sel.Name == "SetFloat4Data") {
+			return "", c.errf(call, "the receiver of .SetFloat3Data is not modeling.NewTriangleMesh(%s) (possibly through SetFloatNData calls)", c.cfg.idx)
+		}
+		r = sel.X
+	}
+	var lit *ast.CompositeLit
+	var litStmtPos token.Pos
+	switch a := c18lUnparen(call.Args[0]).(type) {
+	case *ast.CompositeLit:
+		lit, litStmtPos = a, a.Pos()
+	case *ast.Ident:
+		// a variable: declared once at function level by a literal, mentioned nowhere else
+		mentions := 0
+		ast.Inspect(fd.Body, func(nd ast.Node) bool {
+			if id, ok := nd.(*ast.Ident); ok && id.Name == a.Name {
+				mentions++
+			}
+			return true
+		})
+		for _, st := range fd.Body.List {
+			as, ok := st.(*ast.AssignStmt)
+			if !ok || as.Tok != token.DEFINE || len(as.Lhs) != 1 || len(as.Rhs) != 1 || c18Sel(as.Lhs[0]) != a.Name {
+				continue
+			}
+			if _, isId := as.Lhs[0].(*ast.Ident); !isId {
+				continue
+			}
+			if cl, ok := as.Rhs[0].(*ast.CompositeLit); ok && lit == nil {
+				lit, litStmtPos = cl, as.Pos()
+			}
+		}
+		if lit == nil || mentions != 2 {
+			return "", c.errf(call, "the argument `%s` of .SetFloat3Data is not a variable declared once at function level by a map literal and mentioned nowhere else (mentions: %d)", a.Name, mentions)
+		}
+	default:
+		return "", c.errf(call, "the argument of .SetFloat3Data is neither a map literal nor a variable")
+	}
+	if _, ok := lit.Type.(*ast.MapType); !ok {
+		return "", c.errf(lit, "the argument of .SetFloat3Data is not a map literal")
+	}
+	if litStmtPos < c.lastWrite {
+		return "", c.errf(lit, "the .SetFloat3Data map literal comes before a translated write to a tracked slice (line %d)", c.fset.Position(c.lastWrite).Line)
+	}
+	vecSlice := func(e ast.Expr) *c18lBind {
+		id, ok := c18lUnparen(e).(*ast.Ident)
+		if !ok {
+			return nil
+		}
+		if b := c.sliceByNam[id.Name]; b != nil && b.eltVec {
+			return b
+		}
+		return nil
+	}
+	nrm, seenPos, seenNrm := "", 0, 0
+	for _, el := range lit.Elts {
+		kv, ok := el.(*ast.KeyValueExpr)
+		if !ok {
+			return "", c.errf(el, "unkeyed element in the .SetFloat3Data map literal")
+		}
+		ks, ok := kv.Key.(*ast.SelectorExpr)
+		if !ok {
+			return "", c.errf(kv.Key, "key of the .SetFloat3Data map literal that is not `modeling.<Name>`")
+		}
+		if kx, isId := ks.X.(*ast.Ident); !isId || kx.Name != "modeling" {
+			return "", c.errf(kv.Key, "key of the .SetFloat3Data map literal that is not `modeling.<Name>`")
+		}
+		switch ks.Sel.Name {
+		case "PositionAttribute":
+			seenPos++
+			if c18Sel(kv.Value) != c.cfg.verts || vecSlice(kv.Value) == nil {
+				return "", c.errf(kv, "modeling.PositionAttribute is not the tracked vector slice `%s`", c.cfg.verts)
+			}
+		case "NormalAttribute":
+			seenNrm++
+			if b := vecSlice(kv.Value); b != nil {
+				nrm = fmt.Sprintf("some (%d, false)", b.id)
+				continue
+			}
+			// vector3.Array[float64](<slice>).Normalized()
+			bad := func() (string, error) {
+				return "", c.errf(kv, "modeling.NormalAttribute is neither a tracked vector slice nor `vector3.Array[float64](<tracked vector slice>).Normalized()`")
+			}
+			nc, ok := c18lUnparen(kv.Value).(*ast.CallExpr)
+			if !ok || len(nc.Args) != 0 {
+				return bad()
+			}
+			ns, ok := nc.Fun.(*ast.SelectorExpr)
+			if !ok || ns.Sel.Name != "Normalized" {
+				return bad()
+			}
+			conv, ok := c18lUnparen(ns.X).(*ast.CallExpr)
+			if !ok || len(conv.Args) != 1 || conv.Ellipsis != token.NoPos {
+				return bad()
+			}
+			inst, ok := conv.Fun.(*ast.IndexExpr)
+			if !ok {
+				return bad()
+			}
+			ty, isSel := inst.X.(*ast.SelectorExpr)
+			targ, isId := inst.Index.(*ast.Ident)
+			if !isSel || !isId || c18Sel(ty) != "vector3.Array" || targ.Name != "float64" || !c.pkgIs("vector3", c18lVec3Path) || c.lookup("float64") != nil {
+				return bad()
+			}
+			b := vecSlice(conv.Args[0])
+			if b == nil {
+				return bad()
+			}
+			nrm = fmt.Sprintf("some (%d, true)", b.id)
+		}
+	}
+	if seenPos != 1 || seenNrm > 1 {
+		return "", c.errf(lit, "the .SetFloat3Data map literal must have exactly one modeling.PositionAttribute and at most one modeling.NormalAttribute entry")
+	}
+	return nrm, nil
 }
 
 // rule 10: the Append structure of Cylinder.ToMesh
